@@ -4,8 +4,10 @@ from common import *
 
 LENS = 'grp'
 TRACE_MODULE = 'Trace_IggyGroups'
-FAMILIES = {'C08': ['groups'], 'C07': ['groups']}
-LABELS = {'C08': ('C08.',), 'C07': ('C07.',)}
+FAMILIES = {'C08': ['groups'], 'C07': ['groups'],
+            # C13: the group details (every member with its partitions, also members that own none) as decoded by the SDK
+            'C13': ['groups']}
+LABELS = {'C08': ('C08.',), 'C07': ('C07.',), 'C13': ('C08.assign', 'C08.members', 'C08.view', 'C08.')}
 CONSTS = dict(P0=2, MaxP=3, Clients='{1,2,3}', MaxLen=3,
               Ops='{"join","leave","disconnect","add_parts","del_parts","send","poll","store_last","restart"}')
 
@@ -92,9 +94,11 @@ def nontrivial(prop, scn, evs):
             if ob and (len(ob['members']) > ob['P'] >= 0 and len(ob['members']) > 0 and (e['ev'] in ('join', 'del_parts'))):
                 return True
         return sum(1 for e in evs if e['ev'] == 'poll' and e.get('r')) >= 2
+    if prop == 'C13':
+        return any(e.get('obs') and len(e['obs']['members']) > e['obs']['P'] and len(e['obs']['members']) > 0 for e in evs)
     return any((e['ev'] == 'store_last' and e['res'] == 'ok') or (e['ev'] == 'poll' and e.get('auto') and e.get('r')) for e in evs)
 
-RULES = {'C08': 'a rebalance leaving more members than partitions, or >= 2 polls that returned messages',
+RULES = {'C13': 'a group with more members than partitions was read through get_consumer_group (members that own no partition)', 'C08': 'a rebalance leaving more members than partitions, or >= 2 polls that returned messages',
          'C07': 'a member stored an offset without naming the partition, or an auto-committing group poll returned messages'}
 ASSUMPTIONS = ['the assignment is judged relationally (exclusive, balanced); which member owns which partition is read off get_consumer_group',
-               'a dropped TCP connection is given 10 ms to be noticed by the server before the sweep']
+               'after a dropped TCP connection the sweep waits until the server has removed the client']
